@@ -259,6 +259,53 @@ func c11b(c *Ctx, a *absVariant) {
 		}
 	}
 	r.Check(okW, "C11-b", "T.parser.errs:writers", vn, "builder/static_code.go", fmt.Sprintf("writers outside errList methods: %v (snapshot restore, checked by C05-g/C08-a)", ws), fmt.Sprintf("p.errs written by %v", ws))
+	errListMethodsKeepErrors(c, v, "C11-b")
+}
+
+// errListMethodsKeepErrors: the methods of the error list never drop a recorded error: a store into the list (through
+// the pointer receiver) appends to it, except in the de-duplication that runs when the list is returned (C11-d
+// decides what that one keeps). A method that cuts the list back makes the reported errors depend on what was
+// re-evaluated afterwards - on Memoize, for one: a memo hit does not run the code block again.
+func errListMethodsKeepErrors(c *Ctx, v *variants.Variant, rule string) {
+	r := c.R
+	var bad []string
+	n := 0
+	for _, fd := range v.Funcs() {
+		if fd.Body == nil || fd.Recv == nil || len(fd.Recv.List) != 1 || len(fd.Recv.List[0].Names) != 1 {
+			continue
+		}
+		if strings.TrimPrefix(nospace(fd.Recv.List[0].Type), "*") != "errList" {
+			continue
+		}
+		recv := fd.Recv.List[0].Names[0].Name
+		ast.Inspect(fd.Body, func(nd ast.Node) bool {
+			as, ok := nd.(*ast.AssignStmt)
+			if !ok {
+				return true
+			}
+			for i, l := range as.Lhs {
+				lt := nospace(l)
+				if lt != "*"+recv && !strings.HasPrefix(lt, "(*"+recv+")[") {
+					continue
+				}
+				n++
+				rhs := ""
+				if i < len(as.Rhs) {
+					rhs = nospace(as.Rhs[i])
+				}
+				switch {
+				case lt == "*"+recv && strings.HasPrefix(rhs, "append(*"+recv+","):
+				case fd.Name.Name == "dedupe" && lt == "*"+recv:
+				default:
+					bad = append(bad, fmt.Sprintf("errList.%s stores %s = %s (%s)", fd.Name.Name, lt, abbreviate(rhs), v.Where(as.Pos())))
+				}
+			}
+			return true
+		})
+	}
+	sort.Strings(bad)
+	r.Check(len(bad) == 0 && n >= 2, rule, "T.errList:methods-keep-every-error", v.Name, "builder/static_code.go", fmt.Sprintf("%d stores into the list by its methods: appends, and the final de-duplication", n),
+		strings.Join(bad, "; ")+": an error that was recorded is dropped again; whether it is reported then depends on whether the code block is re-run later, which Memoize(true) and the left-recursion memo prevent")
 }
 
 func c11cde(c *Ctx, v *variants.Variant) {
